@@ -149,3 +149,44 @@ func breakWrites(path string) error {
 	}
 	return nil
 }
+
+// breakWritesTemporarily is breakWrites with a way back: the returned function puts the original descriptors back.
+func breakWritesTemporarily(path string) (func(), error) {
+	null, err := syscall.Open("/dev/null", syscall.O_RDONLY, 0)
+	if err != nil {
+		return nil, err
+	}
+	defer syscall.Close(null)
+	ents, err := os.ReadDir("/proc/self/fd")
+	if err != nil {
+		return nil, err
+	}
+	type pair struct{ fd, saved int }
+	var fds []int // collected first: the duplicates made below would otherwise be listed (and broken) too
+	for _, e := range ents {
+		if l, err := os.Readlink("/proc/self/fd/" + e.Name()); err == nil && l == path {
+			fd, _ := strconv.Atoi(e.Name())
+			fds = append(fds, fd)
+		}
+	}
+	var ps []pair
+	for _, fd := range fds {
+		saved, err := syscall.Dup(fd)
+		if err != nil {
+			return nil, err
+		}
+		if err := syscall.Dup2(null, fd); err != nil {
+			return nil, err
+		}
+		ps = append(ps, pair{fd, saved})
+	}
+	if len(ps) == 0 {
+		return nil, fmt.Errorf("no descriptor on %s", path)
+	}
+	return func() {
+		for _, p := range ps {
+			_ = syscall.Dup2(p.saved, p.fd)
+			_ = syscall.Close(p.saved)
+		}
+	}, nil
+}
